@@ -120,7 +120,7 @@ def psm_frame(
         elif lv == "Precursor":
             data[lv] = np.array([p + "/%d" % rng.integers(2, 4) for p in pep], dtype=object)
         elif lv == "PeptideGroup":
-            data[lv] = np.array([p[:3] for p in pep], dtype=object)
+            data[lv] = np.array(["grp_" + p[:3] for p in pep], dtype=object)  # prefix: "INF"/"NAN"/"NA" would be parsed as numbers by a text reader
     data["Proteins"] = np.array(
         [("sp|P%04d" % (i % 97)) if t else ("decoy_sp|P%04d" % (i % 97)) for i, t in zip(tp, is_target)], dtype=object
     )
